@@ -476,7 +476,9 @@ class RaftNode(Entity):
                 "term": self._current_term,
                 "success": True,
                 "from": self.name,
-                "match_index": self._log.last_index,
+                # Only what this request verified or appended is known to match
+                # the leader; a longer local log may end in stale entries.
+                "match_index": prev_log_index + len(entries),
             },
             daemon=True,
         )
